@@ -3,12 +3,14 @@ package arvados
 import (
 	"errors"
 	"io"
+	"sync"
 )
 
 // fake Keep backend for the collection-filesystem harnesses: blocks are named by a counter (the filesystem never
 // verifies hashes), contents are whatever bytes were written (possibly symbolic); writes can be made to fail.
 
 type gosymKeep struct {
+	mtx      sync.Mutex // the filesystem calls PutB/ReadAt from several goroutines
 	blocks   map[string][]byte
 	n        int
 	failNext func(k int) bool // k = 1,2,... number of the PutB call
@@ -19,6 +21,8 @@ type gosymKeep struct {
 var gosymErrPut = errors.New("stub keep: write failed")
 
 func (k *gosymKeep) ReadAt(locator string, p []byte, off int) (int, error) {
+	k.mtx.Lock()
+	defer k.mtx.Unlock()
 	key := locator
 	for i := 0; i < len(locator); i++ {
 		if i > 33 && locator[i] == '+' { // strip hints after hash+size
@@ -54,6 +58,8 @@ func gosymItoa10(n int) string {
 }
 
 func (k *gosymKeep) PutB(p []byte) (string, int, error) {
+	k.mtx.Lock()
+	defer k.mtx.Unlock()
 	k.puts++
 	if k.failNext != nil && k.failNext(k.puts) {
 		return "", 0, gosymErrPut
